@@ -179,6 +179,8 @@ def main():
         f"nontrivial={len(merged['nontrivial'])} inconclusive={n_inc} "
         f"violations={len(new_violations)} wall={wall:.1f}s"
     )
+    if merged["inconclusive"]:
+        print("  inconclusive:", merged["inconclusive"])
     if merged["metrics"]:
         print("  worst observed:", {k: f"{v:.3g}" for k, v in sorted(merged["metrics"].items())})
     for ln in lines:
